@@ -309,6 +309,42 @@ def run(ctx):
                                       message=f"ownership is recorded for (requested, stored) = {bad}: a failed claim would be reported as won",
                                       how="write reachable only for (RUNNING, WAITING)")
     ctx.floor("R04.4", "ownership_writes", n_w, 2)
+    # the result of a RUNNING request is read from the ownership map *after* replay: a request that did not perform the
+    # WAITING->RUNNING transition must not find a stale entry for the same trial (left by an earlier successful claim or by
+    # creating the trial RUNNING), otherwise the loser/repeater is told True while every other backend says False
+    f = rcls.methods["_apply_set_trial_state_values"]
+    g = CFG(f.node, name=f.qualname)
+    from sa.enumdom import explore as _explore
+    cur_texts = {norm(x) for x in own_nodes(f.node) if isinstance(x, ast.Attribute) and x.attr == "state"
+                 and norm(x.value) not in ("self",) and not norm(x.value).endswith("TrialState")}
+    env = {"state": "RUNNING", "__cur__": "RUNNING"}
+    for ct in cur_texts:
+        env[ct] = "RUNNING"
+    nodes, edges = _explore(g, env, [_cas.model_updatable], return_edges=True)
+    clears = []
+    for n in nodes:
+        for x in n.walk():
+            if isinstance(x, ast.Call) and isinstance(x.func, ast.Attribute) and x.func.attr in ("pop", "clear") and self_attr(x.func.value) == "_worker_id_to_owned_trial_id":
+                clears.append(n)
+        if n.kind == "stmt" and isinstance(n.ast, ast.Delete) and any(isinstance(t, ast.Subscript) and self_attr(t.value) == "_worker_id_to_owned_trial_id" for t in n.ast.targets):
+            clears.append(n)
+
+    def atom_issuer2(e):
+        if isinstance(e, ast.Call) and self_attr(e.func) == "_is_issued_by_this_worker":
+            return True
+        return None
+    non_issuer = [(t, k, m) for t in g.stmt_nodes() if t.kind == "test" for k, m in t.succ if edges_where(t.expr, atom_issuer2).get(k) is False]
+    ok_edge = lambda a, k, b: (a, k, b) in edges and k not in ("e", "reraise") and (a, k, b) not in non_issuer  # noqa: E731
+    r = g.reachable([g.entry], avoid_nodes=clears, edge_ok=ok_edge)
+    # the public method may instead reset the entry before appending its record
+    jf = p.cls(JOURNAL).methods["set_trial_state_values"]
+    pre_reset = any(isinstance(x, ast.Call) and isinstance(x.func, ast.Attribute) and x.func.attr in ("pop", "clear") and "_worker_id_to_owned_trial_id" in norm(x.func.value)
+                    for x in own_nodes(jf.node))
+    ctx.check(pre_reset or g.exit not in r, "R04.4", f.short, "no-stale-ownership-after-failed-claim",
+              message="a RUNNING request on a trial that is already RUNNING leaves this worker's ownership entry untouched: if it points at that trial "
+                      "(earlier successful claim, or the worker created the trial RUNNING) JournalStorage.set_trial_state_values returns True although no "
+                      "WAITING->RUNNING transition happened - in-memory and RDB return False",
+                  how="explored with (requested, stored) = (RUNNING, RUNNING) for the issuer: the ownership entry is cleared on every path to the exit")
     f = rcls.methods.get("owned_trial_id")
     ctx.require(f is not None, "R04.4: owned_trial_id vanished")
     rets = [norm(n.value) for n in own_nodes(f.node) if isinstance(n, ast.Return) and n.value is not None]
